@@ -608,10 +608,15 @@ def run(F, R, config=None):
     r4(F, R)
     r5(F, R)
     r6(F, R)
+    # "data flushed earlier is never corrupted by finalisation": the event arrays of the phase a chain is in are not trimmed away (C14-R13 analysis)
+    from . import c14
+    K.borrow_rule(R, lambda sub: c14.r13(F, sub), "C15-R7", "finalisation keeps the events of the phase the chain ended in: the (warm-up, sampling) event counts a Zarr "
+                  "chain storage reports depend on its phase flag, so a trace that ends in warm-up is not trimmed to zero warm-up events (C14-R13 analysis)",
+                  only_rules={"C14-R13"})
     R.assume("zarrs writes exactly the subset / chunk it is given; tokio's JoinSet::join_next returns None only when the set is empty")
     R.assume("chunk arithmetic for all sizes and store contents after a crash are value questions, not decided")
 
 
-FEATURE_RULES = {"C15-R1": "zarr", "C15-R2": "zarr", "C15-R3": "zarr", "C15-R4": "zarr", "C15-R5": "zarr", "C15-R6": "zarr"}
+FEATURE_RULES = {"C15-R1": "zarr", "C15-R2": "zarr", "C15-R3": "zarr", "C15-R4": "zarr", "C15-R5": "zarr", "C15-R6": "zarr", "C15-R7": "zarr"}
 CONFIGS = ["all", "zarr"]
 SELFTEST = True
